@@ -207,6 +207,24 @@ func runCtlHistory(t *testing.T, rec *Recorder, r *rand.Rand, profile string, st
 			p := -1
 			if r.Intn(4) > 0 {
 				p = r.Intn(256)
+				// values that matter for the controller's comparisons: keys and outputs of the PWM map, the current request
+				switch r.Intn(4) {
+				case 0:
+					if ps := pairs(spec.Map); len(ps) > 0 {
+						p = ps[r.Intn(len(ps))][0]
+					}
+				case 1:
+					if ps := pairs(spec.Map); len(ps) > 0 {
+						p = ps[r.Intn(len(ps))][1]
+					}
+				case 2:
+					if st := c.C.VerifState(); st.LastSetPwm >= 0 {
+						p = st.LastSetPwm
+						if len(st.DistinctPwmValues) > 0 {
+							p = st.DistinctPwmValues[r.Intn(len(st.DistinctPwmValues))]
+						}
+					}
+				}
 				if quant != nil {
 					p = quant(p)
 				}
@@ -305,12 +323,14 @@ func runStallHistory(t *testing.T, rec *Recorder, r *rand.Rand, steps int) {
 	defer c.Close()
 	c.EmitInit(Ev{"profile": "C10", "theta": theta})
 	cyclesPerPoll := 1 + r.Intn(5)
+	// the PWM read-back starts failing during the RPM polls of the stall (hwmon/file: interposer fault)
+	pwmFlaky := spec.Kind != "cmd" && r.Intn(4) == 0
 	for i := 0; i < steps; i++ {
 		rpm := 0
 		if c.reg("pwm") > theta {
 			rpm = 600 + 10*c.reg("pwm")
 		}
-		c.Rpm(rpm, true)
+		c.RpmX(rpm, true, pwmFlaky && i > 3)
 		for k := 0; k < cyclesPerPoll; k++ {
 			time.Sleep(200 * time.Millisecond)
 			if _, err := c.Cycle(cv, 200); err != nil {
